@@ -19,6 +19,9 @@ type CLICase struct {
 	K    int    `json:"k"`    // statements applied before the failing one (1..n-1)
 	Set  bool   `json:"set"`  // run `migrate set 1` between the failure and the edit
 	Edit string `json:"edit"` // none | repair | tail | prefix | truncate | insert_front | grow_fail_again
+	// After: an older file (version 0) is applied before; together with the edit a file whose version lies between the two (05) is added, and the second run uses
+	// --exec-order non-linear: the partially applied file is then not the first file of that run.
+	After bool `json:"after,omitempty"`
 }
 
 func cliStmt(i int) string {
@@ -45,7 +48,11 @@ func evalCLI(c CLICase) (problems []string) {
 	}
 	broken := append([]string(nil), orig...)
 	broken[c.K] = cliFailing
-	if err := w.WriteDir("migrations", map[string]string{"1_f.sql": cliBody(broken)}); err != nil {
+	first := map[string]string{"1_f.sql": cliBody(broken)}
+	if c.After {
+		first["0_init.sql"] = "CREATE TABLE other (id integer);\n"
+	}
+	if err := w.WriteDir("migrations", first); err != nil {
 		return []string{"harness: " + err.Error()}
 	}
 	dirURL, dbURL := "file://"+w.Path("migrations"), w.URL("db.sqlite")
@@ -134,6 +141,31 @@ func evalCLI(c CLICase) (problems []string) {
 	if err := w.WriteDir("migrations", map[string]string{"1_f.sql": cliBody(next)}); err != nil {
 		return []string{"harness: " + err.Error()}
 	}
+	if c.After {
+		if err := w.WriteDir("migrations", map[string]string{"0_init.sql": "CREATE TABLE other (id integer);\n", "05_pre.sql": "INSERT INTO journal (sid) VALUES (55);\n", "1_f.sql": cliBody(next)}); err != nil {
+			return []string{"harness: " + err.Error()}
+		}
+		const rev1 = "SELECT version, description, type, applied, total, error, error_stmt, hash, partial_hashes FROM atlas_schema_revisions WHERE version = '1'"
+		before, _ := w.Query("db.sqlite", "SELECT sid FROM journal WHERE sid <> 55 ORDER BY rowid")
+		revBefore, _ := w.Query("db.sqlite", rev1)
+		r2 := w.Run(nil, "migrate", "apply", "--dir", dirURL, "--url", dbURL, "--tx-mode", "none", "--lock-timeout", "1ms", "--exec-order", "non-linear")
+		after, _ := w.Query("db.sqlite", "SELECT sid FROM journal WHERE sid <> 55 ORDER BY rowid")
+		revAfter, _ := w.Query("db.sqlite", rev1)
+		out := r2.Stdout + r2.Stderr
+		switch {
+		case strings.Contains(out, "panic:") || strings.Contains(out, "goroutine "):
+			bad("`migrate apply --exec-order non-linear` panicked: %s", r2)
+		case r2.Exit == 0 || !strings.Contains(out, "history changed"):
+			bad("an already applied statement was changed, yet apply (an older file ran first) did not report a changed history: %s", r2)
+		}
+		if fmt.Sprint(before) != fmt.Sprint(after) {
+			bad("apply refused the changed history but executed statements of the file: journal %v -> %v", before, after)
+		}
+		if fmt.Sprint(revBefore) != fmt.Sprint(revAfter) {
+			bad("apply refused the changed history but rewrote it: revision row %v -> %v", revBefore, revAfter)
+		}
+		return
+	}
 	// the recorded history as the table holds it (the time of the run and the operator's version are
 	// bookkeeping of the attempt, not history).
 	const rawRevs = "SELECT version, description, type, applied, total, error, error_stmt, hash, partial_hashes FROM atlas_schema_revisions ORDER BY version"
@@ -215,7 +247,10 @@ func cliCases() []CLICase {
 		for k := 1; k < n; k++ {
 			for _, set := range []bool{false, true} {
 				for _, e := range []string{"none", "repair", "tail", "prefix", "truncate", "insert_front", "grow_fail_again"} {
-					cs = append(cs, CLICase{n, k, set, e})
+					cs = append(cs, CLICase{N: n, K: k, Set: set, Edit: e})
+					if !set && (e == "prefix" || e == "truncate" || e == "insert_front") && !(e == "truncate" && k == 1) {
+						cs = append(cs, CLICase{N: n, K: k, Edit: e, After: true})
+					}
 				}
 			}
 		}
@@ -239,7 +274,7 @@ func runCLI(r *report.Run) int {
 		c := cs[i]
 		r.Case(fmt.Sprintf("cli|%+v", c), c.Edit != "none")
 		if len(res[i]) > 0 {
-			r.Violate("", fmt.Sprintf("CLI n=%d k=%d set=%v edit=%s: %s", c.N, c.K, c.Set, c.Edit, strings.Join(res[i], " | ")), map[string]any{"cli_case": c})
+			r.Violate("", fmt.Sprintf("CLI n=%d k=%d set=%v edit=%s after=%v: %s", c.N, c.K, c.Set, c.Edit, c.After, strings.Join(res[i], " | ")), map[string]any{"cli_case": c})
 		}
 	}
 	return len(cs)
